@@ -1007,7 +1007,7 @@ def _resource_segment_with_header_parse_action(s, loc, toks):
 resource_segment_with_header = (
     (
         resource_identifier
-        + Group(ZeroOrMore(Word("-").suppress() + parameter))
+        + Group(ZeroOrMore(Literal("-").suppress() + parameter))
         + Optional(Literal("/").suppress() + Group(resource_path))
     )
     .setParseAction(_resource_segment_with_header_parse_action)
